@@ -64,6 +64,21 @@ def make_units(tier, monitors_=('nostate',)):
     return units
 
 
+_base_make_units = make_units
+
+
+def make_units(tier, monitors_=('nostate',)):
+    """The endings family plus every mix of C01 (two concurrent interactions, both initiators) at bound 1."""
+    units = _base_make_units(tier, monitors_)
+    from mc.props import c01
+    for u in c01.make_units(tier):
+        if u['bound'] > 1 and tier == 'quick':
+            continue
+        units.append({'name': 'mix:' + u['name'], 'inters': u['inters'], 'flavour': u['flavour'], 'fs': u['fs'], 'bound': 1 if tier == 'quick' else u['bound'],
+                      'shard': u['shard'], 'monitors': list(monitors_), 'policy': 'deliver-first'})
+    return units
+
+
 def bounds(tier):
     us = make_units(tier)
     return {'endings': [e[0] for e in endings()], 'deviation_bounds': sorted({u['bound'] for u in us}),
